@@ -62,6 +62,8 @@ def variants(topo, rng, n_perm):
     V.append(("turnrates-rescaled-after-a-step", {"rescale_after_step": 2.5}))
     V.append(("turnrates-as-one-element-arrays", {"beta_arrays": True}))
     V.append(("renamed", {"rename": lambda s: "zz_" + s[::-1] + "_" + str(len(s))}))
+    # distinct elements (and nodes) that merely share a name: names carry no meaning for the dynamics, and validation accepts them
+    V.append(("same-names", {"rename": lambda s: {"L": "seg", "O": "od", "D": "od"}.get(s[0], "n")}))
     V.append(("turnrates-scaled", {"scale": True}))
     return V
 
@@ -364,7 +366,7 @@ def main():
     viol, inc, tot, levels, samples, st, extra = netcheck.summarize(results)
     cov = netcheck.base_coverage(
         tot, levels, samples, st, len(items),
-        "program = topology; per program: (n_perm seeded permutations + reversed + bulk + path-wise + renamed + symbolic turn-rate scaling) variants x "
+        "program = topology; per program: (n_perm seeded permutations + reversed + bulk + path-wise + renamed + same-names + symbolic turn-rate scaling) variants x "
         "(NumPy joint exploration, SX, MX); one query per variant, engine and next-state component: variant term == base term",
         {"bounds": {"family": "K (20 curated)" + (" + every 2nd of E(3,4) + R(seed,20)" if args.thorough else ""), "permutations_per_topology": n_perm,
                     "scale_factors": "one symbolic c_n > 0 per node", "values": "all reals (L1) / admissible domain (fallback)"},
